@@ -221,7 +221,8 @@ pub enum Step {
     /// close, then attempt an open that is meant to fail (C20: close() exactly once, nothing after
     /// it): kind 0 bad magic, 1 truncated file, 2 wrong page size requested, 3 repair aborted from
     /// the callback (on a crash image), 4 the arg-th backend call of the open fails, 5 read-only open
-    /// of a file that needs repair; then reopen normally
+    /// of a file that needs repair, 6 read-only open of a clean file extended by whole pages, 7 normal
+    /// open of such a file, 8 the backend's own close() fails at the next clean close; then reopen normally
     #[serde(alias = "FailingOpen")]
     FailingOpen { kind: u8, arg: u64 },
 }
